@@ -33,12 +33,15 @@ class Wire:
 
 
 class WireOut(BaseOutput):
-    def _open(self, wire=None, **kwargs):
+    def _open(self, wire=None, fail_on=(), **kwargs):
         self.wire = wire
+        self.fail_on = set(fail_on)       # 1-based numbers of the _send calls the device refuses (OSError, nothing written)
 
     def _send(self, msg):
         tag = msg_tag(msg)
         self.sent_objects = getattr(self, 'sent_objects', 0) + 1
+        if self.sent_objects in self.fail_on:
+            raise OSError('device refuses the write')
         for b in msg.bytes():
             self.wire.log.append((tag, b))
             self.wire.buf.append(b)
